@@ -98,6 +98,11 @@ def kinds(effects=("AO",)):
         sfx = "" if e == "AO" else "_" + e
         add("acl" + sfx, SOA, pf, e, lambda k: eq3(k))
         add("root" + sfx, SOA, pf, e, lambda k: Or(eq3(k), Eq(V("r" + k, "sub"), Lit("root"))))
+        if e == "AO":
+            # a string LITERAL whose text holds "r." / "p." in the middle of a word ("super.corp", "app.example"): the escaping of
+            # r.x / p.x names must leave it alone (it applies at word boundaries only)
+            add("root_dotted", SOA, pf, e, lambda k: Or(eq3(k), Eq(V("r" + k, "sub"), Lit("super.corp")),
+                                                        And(Eq(V("r" + k, "obj"), Lit("app.example")), Eq(V("r" + k, "act"), Lit("read")))))
         add("rbac" + sfx, SOA, pf, e,
             lambda k: And(Call("g", V("r" + k, "sub"), V("p" + k, "sub")), Eq(V("r" + k, "obj"), V("p" + k, "obj")),
                           Eq(V("r" + k, "act"), V("p" + k, "act"))), g={"g": 2})
